@@ -40,7 +40,7 @@ def handleC01 (j : Json) : Except String Json := do
   let csOpt : Option (List Path) ← match j.getObjVal? "changes" with
     | .ok (.arr a) => do let l ← pathsOf a; pure (some l)
     | _ => pure none
-  let wf := wfAllB cfg && (csOpt.getD []).all normalB
+  let wf := wfAllDB cfg && (csOpt.getD []).all (changeOkB cfg)
   let model : Json :=
     match indexErr cfg with
     | some e => Json.mkObj [("err", Json.str e)]
@@ -59,7 +59,7 @@ def handleC01 (j : Json) : Except String Json := do
     if !wf then pure (Json.mkObj (base ++ [("oracle", Json.str "skip")]))
     else do
       let ts ← pathsOf (optArr obs "targets")
-      let v1 := c01CheckTargets cfg cs ts
+      let v1 := c01CheckTargetsD cfg cs ts
       let v2 ← match obs.getObjVal? "changes" with
         | .ok (.arr a) => do
           let bd ← a.toList.mapM (fun x => do let r ← x.getArr?; entriesOf r)
